@@ -1,6 +1,7 @@
 package c04
 
 import (
+	"slices"
 	"bytes"
 	"context"
 	"fmt"
@@ -33,7 +34,7 @@ import (
 // splitter's shard hand-out across split/merge/discovery/finish/checkpoint+restore histories.
 func splitterParts(k *report.Check) {
 	k.Explore("splitters/embedded+httpapi", mc.Config{Workers: 1}, nil, simpleSplitters)
-	k.ExploreSched(fmt.Sprintf("kinesis-splitter/d=%d", k.Pick(6, 7)), mc.Config{Bound: 0}, k.Pick(6, 7), kinesisBody)
+	k.ExploreSched(fmt.Sprintf("kinesis-splitter/d=%d", k.Pick(6, 7)), mc.Config{Bound: 0, Deadline: k.Within(0.4)}, k.Pick(6, 7), kinesisBody)
 }
 
 func simpleSplitters(c *mc.Ctx) {
@@ -127,6 +128,9 @@ func (w *kworld) hooks() connectors.SourceSplitterHooks {
 			for _, s := range ss {
 				if prev, ok := w.assigned[s.SplitId]; ok {
 					w.errs = append(w.errs, fmt.Sprintf("shard %s handed out twice by one splitter incarnation (to %s, then %s)", s.SplitId, prev, r))
+				}
+				if w.finished[s.SplitId] {
+					w.errs = append(w.errs, fmt.Sprintf("shard %s handed out again after its reader had finished it", s.SplitId))
 				}
 				w.assigned[s.SplitId] = r
 				w.cursors[s.SplitId] = string(s.Cursor)
@@ -282,6 +286,34 @@ func kinesisBody(c *mc.Ctx) {
 				return
 			}
 		}
+		// bounded completeness: discovery ticks and readers finishing every closed shard they hold,
+		// until nothing changes; then every shard of the stream has been handed out
+		c.Op("readers finish every closed shard, discovery ticks")
+		for round := 0; round < 8 && len(w.errs) == 0; round++ {
+			shim.Sleep(10*time.Second + time.Millisecond)
+			var fin []string
+			for sh := range w.assigned {
+				if !slices.Contains(w.open, sh) && !w.finished[sh] {
+					fin = append(fin, sh)
+				}
+			}
+			if len(fin) == 0 {
+				break
+			}
+			sort.Strings(fin)
+			for _, sh := range fin {
+				w.finished[sh] = true
+				delete(w.progress, sh)
+				w.splitter.NotifySplitsFinished(w.assigned[sh], []string{sh})
+				shim.Sleep(time.Millisecond)
+			}
+		}
+		for i := 0; i < next && len(w.errs) == 0; i++ {
+			sh := fmt.Sprintf("shardId-%012d", i)
+			if _, ok := w.assigned[sh]; !ok && !w.finished[sh] {
+				w.errs = append(w.errs, fmt.Sprintf("shard %s is never handed out although every parent shard has been read to its end", sh))
+			}
+		}
 		w.splitter.Close()
 	})
 	if len(w.errs) > 0 {
@@ -291,6 +323,10 @@ func kinesisBody(c *mc.Ctx) {
 			sig = "kinesis-restore-panics"
 		case strings.Contains(w.errs[0], "before its parent"):
 			sig = "kinesis-child-before-parent"
+		case strings.Contains(w.errs[0], "never handed out"):
+			sig = "kinesis-shard-never-read"
+		case strings.Contains(w.errs[0], "handed out again after"):
+			sig = "kinesis-finished-shard-again"
 		case strings.Contains(w.errs[0], "twice"):
 			sig = "kinesis-shard-twice"
 		case strings.Contains(w.errs[0], "cursor"):
